@@ -107,7 +107,9 @@ type Source struct {
 	Calls  int // Read calls with len(p) > 0
 	Empty  int // of those, calls that returned no data
 	Fired  int
-	EOFs   int
+	// BareFired counts calls that returned the error without any data.
+	BareFired int
+	EOFs      int
 }
 
 // NewSource creates a source.
@@ -126,6 +128,7 @@ func (s *Source) Read(p []byte) (int, error) {
 	if s.failed {
 		s.Empty++
 		s.Fired++
+		s.BareFired++
 		return 0, s.Err
 	}
 	end := len(s.img)
@@ -137,6 +140,7 @@ func (s *Source) Read(p []byte) (int, error) {
 		if s.Plan.Fail && s.Plan.FailAt <= len(s.img) {
 			s.failed = true
 			s.Fired++
+			s.BareFired++
 			return 0, s.Err
 		}
 		s.EOFs++
